@@ -362,29 +362,9 @@ pub fn emit_fn(owner: Option<&str>, name: &str, mut f: syn::ItemFn, contracts: &
     for (i, p) in poss.iter().enumerate() {
         if let Pos::KeepArms = p {
             let keeps: Vec<Vec<String>> = blocks[i].body.lines().map(|l| l.trim()).filter(|l| !l.is_empty()).map(|l| l.split(" / ").map(norm).collect()).collect();
-            let assumed_ident = syn::Ident::new(&format!("{}__assumed", fn_ident), Span::call_site());
-            let mut args: Vec<syn::Expr> = vec![];
-            let mut has_self = false;
-            for a in f.sig.inputs.iter() {
-                match a {
-                    syn::FnArg::Receiver(_) => has_self = true,
-                    syn::FnArg::Typed(pt) => {
-                        if let syn::Pat::Ident(pi) = &*pt.pat {
-                            let id = &pi.ident;
-                            args.push(syn::parse_quote!(#id));
-                        } else {
-                            lost(&format!("{}: @keep-arms needs simple parameter names", name));
-                        }
-                    }
-                }
-            }
-            let call: syn::Expr = if has_self {
-                syn::parse_quote!(self.#assumed_ident(#(#args),*))
-            } else if owner.is_some() {
-                syn::parse_quote!(Self::#assumed_ident(#(#args),*))
-            } else {
-                syn::parse_quote!(#assumed_ident(#(#args),*))
-            };
+            // a masked arm is not part of this slice: it is replaced by a diverging stub, so nothing is proved about it
+            // (and nothing about it is used); it is listed as an assumed arm in the evidence
+            let call: syn::Expr = syn::parse_quote!(vx_arm_not_in_slice());
             match find_top_match(&mut f.block) {
                 Some(m) => mask_match(m, &keeps, &call, &mut masked, &mut kept, ""),
                 None => lost(&format!("{}: @keep-arms but the body does not end in a match", name)),
@@ -395,18 +375,6 @@ pub fn emit_fn(owner: Option<&str>, name: &str, mut f: syn::ItemFn, contracts: &
                     lost(&format!("{}: @keep-arms entry `{}` matches no arm", name, flat));
                 }
             }
-            // contract-only twin
-            let mut twin = f.clone();
-            twin.sig.ident = assumed_ident.clone();
-            twin.block = syn::parse_quote!({ unimplemented!() });
-            let printed = unparse_items(vec![syn::Item::Fn(twin)]);
-            let idx = printed.rfind('{').unwrap();
-            let mut head = printed[..idx].trim_end().to_string();
-            if let (Some(rn), Some(rt)) = (&ret_name, &ret_ty_text) {
-                head = head.replace("-> VxRetMarker", &format!("-> ({}: {})", rn, rt));
-            }
-            let sig_no_decr = strip_decreases(&sig_text);
-            extra_items.push_str(&format!("#[verifier::external_body]\n{}\n{}{{ unimplemented!() }}\n", head, sig_no_decr));
             for mname in &masked {
                 assumed_list.push(format!("arm `{}` of {} is not in this slice: assumed to satisfy {}'s contract (arm masking)", mname, name, name));
             }
